@@ -107,7 +107,7 @@ def classify(rec, clauses):
 def run(ctx):
     thorough = ctx.tier == "thorough"
     rng = random.Random(ctx.seed * 256203221 + 19)
-    cases = [gen_case(rng, k + 1) for k in range(20000 if thorough else 1500)]
+    cases = [gen_case(rng, k + 1) for k in range(20000 if thorough else 2500)]
     recs = ctx.pmap(execute, cases)
     bad = ctx.validate("C19Trace", recs, jvms=16 if thorough else 8, chunk=500)
     for r in recs:
